@@ -422,7 +422,17 @@ func (g *bodyGen) expr(b *wasmenc.B, ty byte, depth int) {
 func (g *bodyGen) stmt(b *wasmenc.B, depth int) {
 	g.budget--
 	ty := valTypes[g.pick(4, "stmt-type")]
-	switch g.pick(9, "stmt") {
+	switch g.pick(10, "stmt") {
+	case 9: // call of an imported host function, results dropped
+		if g.spec.NHost > 0 {
+			f := g.pick(g.spec.NHost, "host-callee")
+			g.args(b, g.sigs[f].P, depth)
+			b.Call(uint32(f))
+			for range g.sigs[f].R {
+				b.Drop()
+			}
+			return
+		}
 	case 0, 1:
 		if ls := g.localsOf(ty); len(ls) > 0 {
 			g.expr(b, ty, depth+1)
